@@ -94,6 +94,34 @@ actions see, and the state (md5 of every file_dep, existence of targets) at ever
         no end in the model (Runner.v is shared and not extended here): oracles only; a case whose abort point is not reached is a
         normal run and is compared as such.
 
+(1e) the class that executes the callable (the property: "raised inside ANY action").  An entry of a task's `actions` may be a callable, a
+    (callable, args, kwargs) tuple, a doit.action.PythonAction object -- all PythonAction.execute --, a doit.tools.PythonInteractiveAction object
+    (its own execute: no capture, `except Exception`, no test of the returned value) or a CmdAction whose command is computed by a callable
+    (`except Exception` around expand_action).  Every action spec has a form `cls`; the interrupting action can be of any of them.
+      * a SYSTEMATIC block (same on every seed): fixed chain t0 <- t1 <- t2 with 8 actions in which every form occurs (the tools / cmd forms as
+        first, middle and last action); the interrupt inside each action x {KeyboardInterrupt, SystemExit} x {serial, thread, process} x backend;
+        plus random points in generated task sets of (1) and (1b) whose actions get their form from the PRNG.
+      * oracles 0-3 of (1) (judge_interrupt): the exception reaches the caller of DoitMain.run, no action is started afterwards, the
+        interrupted task is neither reported nor saved; the trace has the shape of C06_interrupt_flush; the DB read by the real backend class;
+        the next run skips exactly the tasks with a flushed successful execution for the present state.
+      * correspondence: serial runs against Model/Runner.v + Crash.session_db as in (1) (ONE trace whatever the form); and, in this process,
+        `execute` of the real classes (built by a real Task) on every (form, way the callable ends -- the 10 tags of Model/Action.v with 28 values /
+        exception classes, among them KeyboardInterrupt, SystemExit, GeneratorExit, CancelledError, a user's BaseException --, capture mode)
+        against ActionClass.enc_cls = [outcome; result taken from the value?; values taken from the value?], and Task.execute on random lists
+        of 1-3 actions of mixed forms against ActionClass.enc_cls_task = [outcome; number of callables started].  These are the definitions
+        C06_base_exception_leaves_every_action_class / C06_interrupt_never_swallowed / C06_interrupt_any_action_class speak about.
+      NOT judged: doit.tools.LongRunning (documented: "swallow" KeyboardInterrupt while waiting for the command, always successful).
+
+(1f) the working directory.  doit names its DB file relative to the directory it is started in (`.doit.db`; here `depdb`, spec `reldb`), JsonDB
+    writes the file -- and dbm.dumb re-opens its files -- by NAME when the DB is flushed.  Task sets in which actions os.chdir() into
+    sub-directories of the run directory (spec `chdir` of an action; file_dep / targets are given to doit by absolute name, spec `abspaths`,
+    so that nothing but the DB depends on the working directory).  SYSTEMATIC block: fixed chain, the run cut at 4 points -- the directory
+    changed by an earlier action of the interrupted task / by earlier tasks / by the interrupted action itself / twice -- x {KeyboardInterrupt,
+    SystemExit, nothing: the run simply ends} x backend x {serial, thread, process} x {prior, fresh}; plus random chdir placements.
+      * oracles as in (1e); additionally the DB is read (real backend class, in the directory doit was started in) after every COMPLETE run
+        of the history too.  A task reported successful that the DB in the start directory does not record / the next run executes again is
+        reported with the shape c06:chdir-diverts-db-flush (fixed in /repo by 017cc13; the pre-fix code is flagged on json and dbm).
+
 (2) kill sweep.  The same child under
         strace -f -P <db files> -e trace=S -e inject=<s>:signal=SIGKILL:when=<k>
         S = openat,write,pwrite64,rename,unlink,ftruncate,fsync,fdatasync
@@ -142,9 +170,16 @@ DBNAME = 'depdb'
 # =====================================================================================================
 # child side: runs inside the subprocess, imports doit from PYTHONPATH (/repo)
 # =====================================================================================================
+ROOT = None     # child: the run directory; every file name of a spec is relative to it, whatever the working directory is by then
+
+
+def _p(path):
+    return os.path.join(ROOT, path) if ROOT and not os.path.isabs(path) else path
+
+
 def _md5(path):
     try:
-        with open(path, 'rb') as f:
+        with open(_p(path), 'rb') as f:
             return hashlib.md5(f.read()).hexdigest()
     except OSError:
         return None
@@ -152,7 +187,7 @@ def _md5(path):
 
 def _read(path):
     try:
-        with open(path) as f:
+        with open(_p(path)) as f:
             return f.read()
     except OSError:
         return ''
@@ -216,8 +251,10 @@ class _Log:
 
 
 def child_main(spec_path):
+    global ROOT
     spec = json.load(open(spec_path))
     os.chdir(spec['dir'])
+    ROOT = spec['dir']
     log = _Log(spec['log'])
     run_id = spec['run_id']
     ids = {t['name']: i for i, t in enumerate(spec['tasks'])}
@@ -238,6 +275,11 @@ def child_main(spec_path):
         def action(v=None):
             log('start', run_id, t['name'], ai)
             kind = act['kind']
+            if act.get('chdir'):
+                # (1f) the action changes the working directory of the process (and never changes it back)
+                os.makedirs(_p(act['chdir']), exist_ok=True)
+                os.chdir(_p(act['chdir']))
+                log('chdir', run_id, t['name'], ai, act['chdir'])
             if kind == 'kbd':
                 raise KeyboardInterrupt('c06')
             if kind == 'sysexit':
@@ -257,10 +299,10 @@ def child_main(spec_path):
                 # deterministic product: content and mtime of the target are functions of the dependencies' contents
                 h = hashlib.md5(('|'.join('%s' % _md5(p) for p in sorted(t['file_dep'])) + t['name']).encode()).hexdigest()
                 for tg in t['targets']:
-                    with open(tg, 'w') as f:
+                    with open(_p(tg), 'w') as f:
                         f.write(h + '\n' + 'x' * t.get('pad', 0))
                     mt = 1600000000 + int(h[:6], 16)
-                    os.utime(tg, (mt, mt))
+                    os.utime(_p(tg), (mt, mt))
                 if t.get('getargs'):
                     log('got', run_id, t['name'], v)
                 log('done', run_id, t['name'], dep_state(t), full_values(t, rev_of(t)), result_token(t, rev_of(t)))
@@ -270,6 +312,24 @@ def child_main(spec_path):
                 return result_string(t, ai)
             return True
         action.__name__ = 'act_%s_%d' % (t['name'], ai)
+        # (1e) WHICH class executes the callable: the forms create_action accepts and the classes doit ships
+        cls = act.get('cls') or 'callable'
+        if cls == 'tuple':
+            return (action, [], {})
+        if cls == 'pyaction':
+            from doit.action import PythonAction
+            return PythonAction(action)
+        if cls == 'interactive':
+            from doit.tools import PythonInteractiveAction
+            return PythonInteractiveAction(action)
+        if cls == 'cmdcallable':
+            # CmdAction(callable): the callable computes the command (doit evaluates it twice per execution); never the last action
+            from doit.action import CmdAction
+
+            def command(v=None):
+                return 'false' if action(v) is False else 'true'
+            command.__name__ = 'cmd_%s_%d' % (t['name'], ai)
+            return CmdAction(command)
         return action
 
     def make_uptodate(t):
@@ -306,8 +366,10 @@ def child_main(spec_path):
 
     def make_task(t):
         def creator():
+            # (1f) abspaths: doit is given absolute file names, so that nothing but the DB file depends on the working directory
+            fn = (lambda x: os.path.join(spec['dir'], x)) if spec.get('abspaths') else (lambda x: x)
             d = dict(actions=[make_action(t, ai, a) for ai, a in enumerate(t['actions'])],
-                     file_dep=list(t['file_dep']), targets=list(t['targets']), task_dep=list(t['task_dep']))
+                     file_dep=[fn(x) for x in t['file_dep']], targets=[fn(x) for x in t['targets']], task_dep=list(t['task_dep']))
             if t.get('teardown'):
                 d['teardown'] = [make_teardown(t)]
             if t.get('revfile'):
@@ -327,7 +389,7 @@ def child_main(spec_path):
         return creator
 
     def state_of(task):
-        return [dep_state(spec['tasks'][ids[task.name]]), all(os.path.exists(x) for x in task.targets)]
+        return [dep_state(spec['tasks'][ids[task.name]]), all(os.path.exists(_p(x)) for x in task.targets)]
 
     class RecReporter:
         desc = 'c06 recording reporter'
@@ -622,7 +684,10 @@ def with_kinds(sc, kinds, edges=None):
             if kind in ABORT_TASK_KINDS:
                 t['abort'] = kind
             else:
-                t['actions'][min(ai, len(t['actions']) - 1)]['kind'] = kind
+                act = t['actions'][min(ai, len(t['actions']) - 1)]
+                act['kind'] = kind
+                if kind == 'fail':
+                    act.pop('cls', None)    # a failure by `return False` is a PythonAction matter (PythonInteractiveAction ignores the value)
         for a, b, how in (edges or []):
             if a == t['name']:
                 t[how] = list(t.get(how) or []) + [b]
@@ -631,8 +696,9 @@ def with_kinds(sc, kinds, edges=None):
 
 def run_child(d, sc, backend, run_id, kinds=None, args=(), strace=None, timeout=120, edges=None):
     """one doit invocation in directory d.  strace: None | dict(out=path, inject=(syscall, k) or None)"""
-    spec = dict(dir=d, db=os.path.join(d, DBNAME), backend=backend, tasks=with_kinds(sc, kinds or {}, edges), selected=sc['selected'],
-                args=list(args), log='c06.log', run_id=run_id)
+    # (1f) reldb: the DB file is named the way it is by default -- relative to the directory doit is started in
+    spec = dict(dir=d, db=DBNAME if sc.get('reldb') else os.path.join(d, DBNAME), abspaths=bool(sc.get('abspaths')), backend=backend,
+                tasks=with_kinds(sc, kinds or {}, edges), selected=sc['selected'], args=list(args), log='c06.log', run_id=run_id)
     sp = os.path.join(d, 'c06-spec-%d.json' % run_id)
     with open(sp, 'w') as f:
         json.dump(spec, f)
@@ -667,7 +733,7 @@ def read_log(d):
 def run_view(recs, run_id):
     """what one run did, from the log"""
     v = dict(events=[], trace=[], rc=None, done={}, sel={}, wake={}, ended=False, escaped=None, started=[],
-             vals={}, utdv=[], got=[], sets={}, rtok={}, table=None, raised=[], marks=[])
+             vals={}, utdv=[], got=[], sets={}, rtok={}, table=None, raised=[], marks=[], chdirs=[])
     for r in recs:
         if len(r) < 2 or r[1] != run_id:
             continue
@@ -702,6 +768,8 @@ def run_view(recs, run_id):
             v['raised'].append((r[2], r[3]))
         elif k == 'mark':
             v['marks'].append(r[2])
+        elif k == 'chdir':
+            v['chdirs'].append(r[2:])
     return v
 
 
@@ -863,6 +931,15 @@ def db_records(d, backend):
         shutil.rmtree(cp, ignore_errors=True)
 
 
+def stray_db_files(d):
+    """DB files found anywhere below the run directory but not in it (diagnosis only: where a diverted flush went)"""
+    found = []
+    for dp, dns, fns in os.walk(d):
+        if os.path.abspath(dp) != os.path.abspath(d):
+            found += [os.path.relpath(os.path.join(dp, f), d) for f in fns if f == DBNAME or f.startswith(DBNAME + '.') or f.startswith(DBNAME + '-')]
+    return sorted(found)
+
+
 def canon(x):
     return json.dumps(x, sort_keys=True)
 
@@ -955,7 +1032,8 @@ def interrupt_case(job):
     revert = job.get('revert', [])
     res = dict(job=dict(replay=job.get('replay', 'interrupt'), edges=job.get('edges'), backend=backend, variant=variant, target=target, ai=ai, kind=kind, args=args2,
                         modify=job.get('modify', []), history=history, revert=revert, failing=job.get('failing'),
-                        runner=job.get('runner', 'serial'), tasks=sc['tasks'], selected=sc['selected']), problems=[], complaints=[])
+                        runner=job.get('runner', 'serial'), tasks=sc['tasks'], selected=sc['selected'],
+                        reldb=bool(sc.get('reldb')), abspaths=bool(sc.get('abspaths'))), problems=[], complaints=[])
     os.makedirs(d, exist_ok=True)
     version = {}
     for s in sources_of(sc):
@@ -969,7 +1047,18 @@ def interrupt_case(job):
         res['complaints'] += value_complaints(sc, v0, book, 'complete run %d' % rid)
         if rc != 0 or not book.apply(sc, v0):
             res['problems'].append(('harness', 'prior run failed rc=%s %s' % (rc, err[-300:])))
+            if sc.get('reldb') and v0['chdirs']:
+                res['complaints'].append(('db-complete-run', 'the complete run %d (nothing interrupts it; working directory changed by %s) exits %s: %s; tasks it reported '
+                                          'successful: %s; stray DB files: %s' % (rid, [c[:2] for c in v0['chdirs']], rc, err.strip().splitlines()[-1:],
+                                                                                  [names[i] for i in ev_tasks(v0, 6)], stray_db_files(d))))
             return res
+        if sc.get('reldb'):
+            # (1f) "... or simply ending": what the DB records after a COMPLETE run in which an action changed the working directory
+            got0 = recorded_tasks(d, backend, names)
+            if got0 != sorted(book.rec):
+                res['complaints'].append(('db-complete-run', 'after the complete run %d (exit 0, working directory changed by %s) the %s DB in the directory '
+                                          'doit was started in records %s, the tasks saved and flushed are %s; stray DB files: %s'
+                                          % (rid, [c[:2] for c in v0['chdirs']], backend, got0, sorted(book.rec), stray_db_files(d))))
         for s in mods:
             version[s] += 1
             write_source(d, s, version[s])
@@ -996,6 +1085,7 @@ def interrupt_case(job):
     res['complaints'] += record_complaints(sc, v1, rec0, rec1, target, closed)
     res['recorded'] = recorded_tasks(d, backend, names)
     res['expected_recorded'] = sorted(book.rec)
+    res['stray1'] = stray_db_files(d) if sc.get('reldb') else []
     for s in revert:   # the user takes the edit back: the state the prior record was made for is the present state again
         if version.get(s, 0) > 0:
             version[s] -= 1
@@ -2082,6 +2172,416 @@ def part_json_assumptions(ctx, out, plan_info):
     out.extra['documents_and_records_seen'] = len(docs | recs)
 
 
+# ------------------------------------------------------------------ (1e) the class that executes the callable, (1f) the working directory
+ACTION_FORMS = ('callable', 'tuple', 'pyaction', 'interactive', 'cmdcallable')
+FORM_MODEL = {'callable': 'CPython', 'tuple': 'CPython', 'pyaction': 'CPython', 'interactive': 'CPyInteractive', 'cmdcallable': 'CCmdCallable'}
+FORM_WHAT = {'callable': 'a plain callable (PythonAction)', 'tuple': 'a (callable, args, kwargs) tuple (PythonAction)',
+             'pyaction': 'a doit.action.PythonAction object', 'interactive': 'a doit.tools.PythonInteractiveAction object',
+             'cmdcallable': 'a CmdAction whose command is computed by a callable'}
+EXC_WHAT = {'kbd': 'KeyboardInterrupt', 'sysexit': 'SystemExit', 'ok': 'nothing (the run simply ends)'}
+
+
+def form_of(act):
+    return act.get('cls') or 'callable'
+
+
+def fixed_class_scenario():
+    """the task set of the systematic (seed-independent) block of (1e): executed in the order t2, t1, t0; every form of ACTION_FORMS is
+    the form of some action, the two classes of doit.tools / CmdAction(callable) at first, middle and last positions"""
+    ok = lambda **kw: dict(kind='ok', **kw)
+    tasks = [
+        dict(name='t0', file_dep=['src0'], targets=['out0'], task_dep=['t1'], teardown=False, pad=0,
+             actions=[ok(cls='cmdcallable'), ok(cls='tuple'), ok(cls='interactive')]),
+        dict(name='t1', file_dep=['src1', 'out2'], targets=['out1'], task_dep=[], teardown=True, pad=7, io={'capture': False}, verbosity=2,
+             actions=[ok(cls='interactive', ret='dict'), ok(cls='cmdcallable'), ok(cls='pyaction')]),
+        dict(name='t2', file_dep=['src2'], targets=['out2'], task_dep=[], teardown=False, pad=0,
+             actions=[ok(cls='pyaction', ret='str'), ok(cls='interactive')]),
+    ]
+    return dict(tasks=tasks, selected=['t0'])
+
+
+def fixed_chdir_scenario():
+    """the task set of the systematic block of (1f): executed in the order t2, t1, t0.  doit is started in the run directory with the DB file
+    named relative to it (reldb) and every other file by its absolute name (abspaths); the first action of t1 changes the working directory
+    to <run dir>/wd1, the first action of t0 to <run dir>/wd1/wd2"""
+    ok = lambda **kw: dict(kind='ok', **kw)
+    tasks = [
+        dict(name='t0', file_dep=['src0'], targets=['out0'], task_dep=['t1'], teardown=False, pad=0, actions=[ok(chdir='wd1/wd2'), ok()]),
+        dict(name='t1', file_dep=['src1', 'out2'], targets=['out1'], task_dep=[], teardown=True, pad=300, actions=[ok(chdir='wd1'), ok(cls='interactive')]),
+        dict(name='t2', file_dep=['src2'], targets=['out2'], task_dep=[], teardown=False, pad=7, actions=[ok()]),
+    ]
+    return dict(tasks=tasks, selected=['t0'], reldb=True, abspaths=True)
+
+
+# (target, action index, label): where the run of the systematic block of (1f) is cut
+FIXED_CHDIR_POINTS = [('t1', 1, 'chdir-by-earlier-action-of-the-interrupted-task'), ('t0', 1, 'chdir-by-earlier-tasks'),
+                      ('t1', 0, 'chdir-by-the-interrupted-action-itself'), ('t0', 0, 'second-chdir-by-the-interrupted-action')]
+
+
+def assign_forms(rng, sc):
+    """give every action of a generated task set a form; CmdAction(callable) only where the action is neither the last one (that one writes
+    the targets and the log) nor returns values"""
+    for t in sc['tasks']:
+        for ai, a in enumerate(t['actions']):
+            a.pop('cmd', None)
+            forms = ['callable', 'tuple', 'pyaction', 'interactive', 'interactive']
+            if ai < len(t['actions']) - 1 and not a.get('ret'):
+                forms += ['cmdcallable', 'cmdcallable']
+            a['cls'] = rng.choice(forms)
+    return sc
+
+
+def class_jobs(ctx, base):
+    """the cases of (1e) and (1f): two systematic blocks (no PRNG draw) + random points in generated task sets"""
+    rng = ctx.rng
+    jobs = []
+
+    def add(sc, backend, runner, variant, kind, target, ai, label, **kw):
+        modify = kw.pop('modify', None)
+        jobs.append(dict(dir=os.path.join(base, 'e%d' % len(jobs)), sc=sc, backend=backend, variant=variant, target=target, ai=ai, kind=kind,
+                         modify=(sources_of(sc) if variant == 'prior' else []) if modify is None else modify, failing=None, runner=runner,
+                         args=list(RUNNER_ARGS[runner]), label=label, replay='action-class', **kw))
+    # ---- (1e) systematic: the interrupt inside every action of the fixed set (every form), both exceptions, every runner flavour
+    csc = fixed_class_scenario()
+    points = [(t['name'], ai) for t in csc['tasks'] for ai in range(len(t['actions']))]
+    for ri, runner in enumerate(('serial', 'thread', 'process')):
+        for pi, (target, ai) in enumerate(points):
+            for ki, kind in enumerate(('kbd', 'sysexit')):
+                if ctx.quick and runner != 'serial' and (pi + ki + ri) % 2:
+                    continue       # quick tier, parallel runners: the two exceptions alternate over the points (thread and process: opposite phases)
+                for bi, backend in enumerate(BACKENDS):
+                    if ctx.quick and bi != (pi + ki + ri) % 3:
+                        continue   # quick tier: the backend rotates over the points
+                    for variant in (('prior',) if ctx.quick else ('prior', 'fresh')):
+                        add(csc, backend, runner, variant, kind, target, ai, 'class', fixed=True)
+    # ---- (1f) systematic: an action changed the working directory before the run is cut (or simply ends)
+    dsc = fixed_chdir_scenario()
+    for ri, runner in enumerate(('serial', 'thread', 'process')):
+        for pi, (target, ai, label) in enumerate(FIXED_CHDIR_POINTS):
+            for bi, backend in enumerate(BACKENDS):
+                if ctx.quick and runner == 'process' and bi != pi % 3:
+                    continue       # a worker process changes ITS directory, not the one of the process that owns the DB: sampled in the quick tier
+                for ki, kind in enumerate(('kbd', 'sysexit', 'ok')):
+                    if ctx.quick and ki != (pi + bi + ri) % 3 and not (runner == 'serial' and kind == 'kbd'):
+                        continue
+                    for variant in ((('prior', 'fresh')[(pi + bi + ki) % 2],) if ctx.quick else ('prior', 'fresh')):
+                        add(dsc, backend, runner, variant, kind, target, ai, label, fixed=True)
+    n_fixed = len(jobs)
+    # ---- from the PRNG: generated task sets (plain and value ones) with a form on every action; any task / action; some of them with the
+    # DB named relative to the start directory and an action (of any task, at or before the point or after it) changing the working directory
+    scs = [assign_forms(rng, gen_scenario(rng, n)) for n in ([3, 4] if ctx.quick else [2, 3, 3, 4, 4])]
+    scs += [assign_forms(rng, gen_value_scenario(rng, n)) for n in ([3] if ctx.quick else [3, 4, 2])]
+    for sc in scs:
+        srcs = sources_of(sc)
+        for _ in range(ctx.n(6, 24)):
+            sc2 = json.loads(json.dumps(sc))
+            t = rng.choice(sc2['tasks'])
+            ai = rng.randrange(len(t['actions']))
+            label = 'class'
+            if rng.random() < 0.4:
+                sc2['reldb'] = sc2['abspaths'] = True
+                label = 'chdir-random'
+                for _ in range(rng.choice([1, 1, 2])):
+                    tt = rng.choice(sc2['tasks'])
+                    rng.choice(tt['actions'])['chdir'] = rng.choice(['wd1', 'wd1/wd2', 'wd3'])
+            variant = rng.choice(['fresh', 'prior', 'prior'])
+            own = ['src' + t['name'][1:]] + ([t['revfile']] if t.get('revfile') else [])
+            modify = sorted(set(rng.sample(srcs, rng.randrange(0, len(srcs) + 1)) + own)) if variant == 'prior' else []
+            add(sc2, rng.choice(BACKENDS), rng.choice(['serial', 'serial', 'thread', 'process']), variant,
+                rng.choice(['kbd', 'kbd', 'sysexit', 'sysexit', 'ok'] if label != 'class' else ['kbd', 'sysexit']), t['name'], ai, label, modify=modify)
+    return jobs, n_fixed
+
+
+def judge_interrupt(job, res):
+    """the oracles of (1) on one case of (1e) / (1f).  kind 'ok': nothing is raised, the run simply ends.
+    Returns (violations [(shape suffix, sentence)], was the point reached)"""
+    sc = job['sc']
+    names = [t['name'] for t in sc['tasks']]
+    ids = {nm: i for i, nm in enumerate(names)}
+    v1, v2 = res['v1'], res['v2']
+    ev = v1['events']
+    kind, target, ai = job['kind'], job['target'], job['ai']
+    k = ids[target]
+    tt = sc['tasks'][k]
+    act = tt['actions'][min(ai, len(tt['actions']) - 1)]
+    serial = job['runner'] in ('serial', 'timestamp')
+    started = [tuple(x) for x in v1['started']]
+    raised = (target, ai) in started
+    cut = kind in ('kbd', 'sysexit')
+    moved = ['%s action %d -> %s' % tuple(c) for c in v1['chdirs']]
+    where = '%s raised inside action %d of %s -- %s; io capture=%s, verbosity=%s -- (%s backend, %s runner, %s%s)' % (
+        EXC_WHAT[kind], ai, target, FORM_WHAT[form_of(act)], capture_of(tt), tt.get('verbosity'), job['backend'], job['runner'], job['variant'],
+        '; working directory changed before: %s; DB file named relative to the start directory' % moved if sc.get('reldb') else '')
+    viol = []
+    succ1 = [names[i] for i in ev_tasks(v1, 6)]
+    if cut and raised:
+        # oracle 0: the run IS interrupted
+        why0 = []
+        if res['rc1'] != 4:
+            why0.append('the exception did not reach the caller of DoitMain.run (exit status %s%s)' % (res['rc1'], '' if v1['escaped'] else ', nothing escaped'))
+        if [6, k] in ev or [7, k] in ev:
+            why0.append('the interrupted task was %s' % ' and '.join(w for c, w in ((6, 'reported successful'), (7, 'saved as successful')) if [c, k] in ev))
+        after = [x for x in started[started.index((target, ai)) + 1:] if x != (target, ai)]
+        if serial and after:
+            why0.append('the run went on: actions started after the interrupt: %s' % after)
+        if why0 and ([6, k] in ev or [7, k] in ev or (serial and after) or res['rc1'] in (0, 1, 2)):
+            viol.append(('swallowed', 'SWALLOWED INTERRUPT: %s did not end the run: %s' % (where, '; '.join(why0))))
+        elif why0:
+            # the run did end there, but by something else than the exception that was raised (e.g. exit 3: an error of the DB flush took its place)
+            viol.append(('masked', '%s: the run ended, but not by that exception: %s; stderr: %s' % (where, '; '.join(why0), res.get('err1', '').strip().splitlines()[-1:])))
+        elif not res['closed']:
+            viol.append(('exit', '%s: exit status %s but the DB was not closed' % (where, res['rc1'])))
+        # oracle 1: the conclusions of C06_interrupt_flush / C06_interrupt_never_swallowed on the trace
+        if serial and not why0:
+            why = trace_oracle(ev, k)
+            if why:
+                viol.append(('trace', '%s: %s' % (where, why)))
+    elif not cut:
+        if res['rc1'] != 0:
+            viol.append(('rc', '%s: the run that nothing interrupts exits %s: %s' % (where, res['rc1'], res.get('err1', '')[-200:])))
+        if ev.count([10]) != 1:
+            viol.append(('not-flushed', '%s: Dependency.close ran %d times' % (where, ev.count([10]))))
+    # oracle 2 / 2b: what the DB records afterwards (real backend class), record by record; values shown to uptodate callables / getargs
+    if res['recorded'] != res['expected_recorded']:
+        viol.append(('db', '%s: afterwards the %s DB in the directory doit was started in records %s, the successful+flushed tasks are %s%s'
+                     % (where, job['backend'], res['recorded'], res['expected_recorded'],
+                        '; stray DB files: %s' % res.get('stray1') if sc.get('reldb') else '')))
+    seen = set()
+    for ckind, what in res['complaints']:
+        if ckind not in seen:
+            seen.add(ckind)
+            viol.append((ckind, '%s: %s' % (where, what)))
+    # oracle 3: the next run
+    skipped2 = sorted(names[i] for i in ev_tasks(v2, 3))
+    executed2 = sorted(names[i] for i in ev_tasks(v2, 5))
+    if res['rc2'] != 0:
+        viol.append(('next-rc', '%s: the next run exits %s: %s' % (where, res['rc2'], res['err2'][-200:])))
+    elif skipped2 != res['expect_skip2']:
+        lying = sorted(set(skipped2) - set(res['expect_skip2']))
+        viol.append(('lying', '%s: LYING DB: the next run skips %s which have no flushed successful execution with the present state' % (where, lying))
+                    if lying else
+                    ('forgot', '%s: the next run forgot %s (executed although recorded successful and unchanged)'
+                     % (where, sorted(set(res['expect_skip2']) - set(skipped2)))))
+    never = {t['name'] for t in sc['tasks'] if t.get('getargs')
+             and sc['tasks'][ids[t['getargs'][0]]]['actions'][-1].get('ret') not in ('dict', 'str')}
+    again = [nm for nm in succ1 if nm in v2['sel'] and nm in executed2 and nm not in never]
+    if again and not any(s == 'forgot' for s, _ in viol):
+        viol.append(('forgot', '%s: reported successful before the run was cut, executed again by the next run although nothing changed: %s' % (where, again)))
+    if cut and raised and target in v2['sel'] and target not in executed2:
+        viol.append(('lying', '%s: LYING DB: the interrupted task %s was skipped by the next run' % (where, target)))
+    return viol, raised
+
+
+CHDIR_SHAPE = 'c06:chdir-diverts-db-flush'
+CHDIR_KINDS = ('db', 'db-complete-run', 'forgot', 'next-rc', 'unreadable', 'record', 'saved-values', 'values', 'getargs', 'rc', 'not-flushed', 'masked')
+
+
+def part_action_class(ctx, out, cases):
+    base = ctx.subdir('cls')
+    jobs, n_fixed = class_jobs(ctx, base)
+    with concurrent.futures.ThreadPoolExecutor(max_workers=common.NCPU) as ex:
+        results = list(ex.map(interrupt_case, jobs))
+    n_model = 0
+    for job, res in zip(jobs, results):
+        sc = job['sc']
+        desc = dict(res['job'])
+        for kind_, what in res['problems']:
+            out.mismatches.append(dict(case=desc, impl=what, model='harness could not set up the case'))
+        if 'v1' not in res:
+            for ckind, what in res['complaints']:
+                if ckind == 'db-complete-run':
+                    out.violations.append(dict(what=what, shape=CHDIR_SHAPE, case=desc))
+            continue
+        out.evaluations += 1
+        names = [t['name'] for t in sc['tasks']]
+        v1 = res['v1']
+        tt = sc['tasks'][names.index(job['target'])]
+        form = form_of(tt['actions'][min(job['ai'], len(tt['actions']) - 1)])
+        viol, raised = judge_interrupt(job, res)
+        moved = bool(sc.get('reldb') and (v1['chdirs'] or any(c[0] == 'db-complete-run' for c in res['complaints'])))
+        if sc.get('reldb'):
+            out.count('chdir:%s:%s:%s:%s%s' % (job['label'], job['backend'], job['runner'], job['kind'], ':systematic' if job.get('fixed') else ''))
+            out.count('chdir:working-directory-changed-before-the-run-was-cut:%s' % bool(v1['chdirs']))
+        else:
+            out.count('action-class:%s:%s:%s%s' % (form, job['kind'], job['runner'], ':systematic' if job.get('fixed') else ''))
+            out.count('action-class-backend:%s:%s' % (form, job['backend']))
+        if raised:
+            out.nontrivial.add(('cls', form, bool(sc.get('reldb')), job['backend'], job['variant'], job['runner'], job['kind'], job['ai'], tuple(v1['trace']),
+                                tuple(tuple(c) for c in v1['chdirs'])))
+            out.count('action-class-reached:%s:tasks-reported-successful-before:%d' % (form, min(2, len(ev_tasks(v1, 6)))))
+        elif job.get('fixed'):
+            out.mismatches.append(dict(case=desc, impl='the point was not reached: trace %s rc %s %s' % (v1['trace'], res['rc1'], res.get('err1', '')[-300:]),
+                                       model='systematic blocks of (1e)/(1f): every point is reached'))
+        else:
+            out.count('action-class:point-not-reached (task not selected / up-to-date / after a failing one)')
+        # correspondence with Model/Runner.v + Crash.v: ONE trace and ONE DB whatever the class of the action and the working directory
+        if job['runner'] == 'serial':
+            case, _ = model_case(sc, job, res, desc, str(len(cases)))
+            case['desc'] = ('action-class-trace+db', desc)
+            cases.append(case)
+            n_model += 1
+        for sfx, what in viol:
+            if moved and sfx in CHDIR_KINDS:
+                shape = CHDIR_SHAPE
+            elif sc.get('reldb'):
+                shape = 'c06:chdir:%s:%s:%s' % (job['backend'], job['runner'], sfx)
+            else:
+                shape = 'c06:action-class:%s:%s:%s' % (form, job['kind'], sfx)
+            out.violations.append(dict(what=what, shape=shape, case=desc))
+        if raised and len(ev_tasks(v1, 6)) and not any(x.get('kind') == 'action-class:' + form for x in out.samples) and len(out.samples) < 6 and form != 'callable':
+            out.samples.append(dict(kind='action-class:' + form, raised=job['kind'], interrupted=job['target'], action=job['ai'], backend=job['backend'],
+                                    runner=job['runner'], trace=v1['trace'], exit=res['rc1'], recorded_after=res['recorded'],
+                                    working_directory_changes=v1['chdirs'],
+                                    next_run_skipped=sorted(names[i] for i in ev_tasks(res['v2'], 3)),
+                                    next_run_executed=sorted(names[i] for i in ev_tasks(res['v2'], 5))))
+    out.extra['action_class_and_chdir_runs'] = len(jobs)
+    out.extra['action_class_and_chdir_runs_systematic'] = n_fixed
+    out.extra['action_class_and_chdir_runs_compared_with_Runner_v_and_Crash_v'] = n_model
+
+
+# ---- (1e) the `execute` of the real classes against Model/ActionClass.v
+RTAGS = ['RTrue', 'RFalse', 'RNone', 'RStr', 'RDict', 'RTaskFailed', 'RTaskError', 'ROther', 'RRaises', 'RBaseExc']
+
+
+def callable_ends(form):
+    """[(rtag, label, thunk giving the value to return / exception to raise, exit status of the command)]: the ways a callable ends"""
+    from doit.exceptions import TaskFailed, TaskError, InvalidTask
+    import asyncio
+    ret = lambda v: (lambda: ('ret', v))
+    exc = lambda e: (lambda: ('raise', e))
+    ends = [('RTrue', 'True', ret(True), 0), ('RFalse', 'False', ret(False), 0), ('RNone', 'None', ret(None), 0),
+            ('RDict', 'dict', ret({'k': [1, 2]}), 0), ('RDict', 'empty-dict', ret({}), 0),
+            ('RTaskFailed', 'TaskFailed-object', ret(TaskFailed('c06')), 0), ('RTaskError', 'TaskError-object', ret(TaskError('c06')), 0),
+            ('ROther', 'int', ret(7), 0), ('ROther', 'float', ret(3.5), 0), ('ROther', 'list-of-int', ret([1]), 0), ('ROther', 'tuple', ret(('a',)), 0),
+            ('RRaises', 'RuntimeError', exc(RuntimeError('c06')), 0), ('RRaises', 'OSError', exc(OSError('c06')), 0),
+            ('RRaises', 'KeyError', exc(KeyError('c06')), 0), ('RRaises', 'InvalidTask', exc(InvalidTask('c06')), 0),
+            ('RRaises', 'StopIteration', exc(StopIteration()), 0),
+            ('RBaseExc', 'KeyboardInterrupt', exc(KeyboardInterrupt('c06')), 0), ('RBaseExc', 'SystemExit(7)', exc(SystemExit(7)), 0),
+            ('RBaseExc', 'SystemExit(0)', exc(SystemExit(0)), 0), ('RBaseExc', 'GeneratorExit', exc(GeneratorExit('c06')), 0),
+            ('RBaseExc', 'user-BaseException', exc(C06Abort('c06')), 0), ('RBaseExc', 'CancelledError', exc(asyncio.CancelledError('c06')), 0)]
+    if form == 'cmdcallable':
+        ends += [('RStr', 'cmd-true', ret('true'), 0), ('RStr', 'cmd-false', ret('false'), 1), ('RStr', 'cmd-exit-3', ret('exit 3'), 3),
+                 ('RStr', 'cmd-exit-126', ret('exit 126'), 126), ('RStr', 'cmd-exit-200', ret('exit 200'), 200), ('RStr', 'cmd-killed', ret('kill -9 $$'), -9)]
+    else:
+        ends += [('RStr', 'str', ret('c06 result'), 0), ('RStr', 'empty-str', ret(''), 0)]
+    return ends
+
+
+def build_action(form, fn):
+    """the object a task's `actions` list holds for this form"""
+    if form == 'tuple':
+        return (fn, [], {})
+    if form == 'pyaction':
+        from doit.action import PythonAction
+        return PythonAction(fn)
+    if form == 'interactive':
+        from doit.tools import PythonInteractiveAction
+        return PythonInteractiveAction(fn)
+    if form == 'cmdcallable':
+        from doit.action import CmdAction
+        return CmdAction(fn)
+    return fn
+
+
+def aout_code(r, escaped):
+    from doit.exceptions import TaskFailed, TaskError
+    if escaped:
+        return 3
+    return 0 if r is None else (1 if isinstance(r, TaskFailed) else (2 if isinstance(r, TaskError) else 9))
+
+
+def part_class_model(ctx, out):
+    """`execute` of the real action classes (through a real Task, so that create_action builds them and io.capture is what a task gives) on every
+    (form, way the callable ends, capture mode), and Task.execute on lists of 1-3 actions of mixed forms, against Model/ActionClass.v"""
+    from doit.task import Task, Stream
+    rng = ctx.rng
+    ccases = []
+    for form in ACTION_FORMS:
+        for tag, label, thunk, rc in callable_ends(form):
+            for cap in ((True, False, None) if (not ctx.quick or tag in ('RBaseExc', 'RRaises')) else (True, False)):
+                box = {}
+
+                def fn(thunk=thunk, box=box):
+                    how, v = thunk()
+                    if how == 'raise':
+                        raise v
+                    box['v'] = v
+                    return v
+                try:
+                    task = Task('c06cls', [build_action(form, fn)], io={'capture': cap})
+                    task.init_options()
+                    a = task.actions[0]
+                    try:
+                        r, escaped = a.execute(None, None), None
+                    except BaseException as e:   # noqa
+                        r, escaped = None, type(e).__name__
+                    obs = [aout_code(r, escaped), int('v' in box and a.result is box['v'] and box['v'] is not None),
+                           int('v' in box and isinstance(box['v'], dict) and a.values is box['v'])]
+                except Exception as e:   # noqa
+                    obs = [98, 0, 0]
+                    escaped = 'harness: %r' % e
+                ccases.append(dict(model='enc_cls (Build_cact %s %s (%d)%%Z)' % (FORM_MODEL[form], tag, rc), expected=obs,
+                                   desc=('action-class-execute', dict(form=form, callable_ends_by=label, capture=str(cap), escaped=escaped))))
+                out.evaluations += 1
+                out.count('class-execute:%s:%s' % (form, tag))
+                if tag == 'RBaseExc':
+                    out.nontrivial.add(('cls-exec', form, label, str(cap)))
+    # Task.execute on lists of actions of mixed forms: outcome and how many callables were started
+    simple = {'RTrue': lambda: ('ret', True), 'RFalse': lambda: ('ret', False), 'RDict': lambda: ('ret', {'k': 1}), 'ROther': lambda: ('ret', 7),
+              'RRaises': lambda: ('raise', RuntimeError('c06')), 'RBaseExc': None, 'RStr': None}
+    for _ in range(ctx.n(40, 300)):
+        n = rng.choice([1, 2, 2, 3, 3])
+        spec = []
+        for i in range(n):
+            form = rng.choice(ACTION_FORMS)
+            tag = rng.choice(['RTrue', 'RTrue', 'RStr', 'RStr', 'RDict', 'RFalse', 'ROther', 'RRaises', 'RBaseExc', 'RBaseExc'])
+            rc = 0
+            if tag == 'RStr':
+                rc = rng.choice([0, 0, 1]) if form == 'cmdcallable' else 0
+                thunk = (lambda rc=rc: ('ret', 'true' if rc == 0 else 'false')) if form == 'cmdcallable' else (lambda: ('ret', 'c06 result'))
+                label = 'str'
+            elif tag == 'RBaseExc':
+                label, e = rng.choice([('KeyboardInterrupt', KeyboardInterrupt('c06')), ('SystemExit', SystemExit(7)), ('GeneratorExit', GeneratorExit()),
+                                       ('user-BaseException', C06Abort('c06'))])
+                thunk = lambda e=e: ('raise', e)
+            else:
+                thunk, label = simple[tag], tag
+            spec.append((form, tag, rc, thunk, label))
+        called = set()
+
+        def mk(i, thunk):
+            def fn():
+                called.add(i)
+                how, v = thunk()
+                if how == 'raise':
+                    raise v
+                return v
+            return fn
+        try:
+            task = Task('c06cls', [build_action(f, mk(i, th)) for i, (f, _, _, th, _) in enumerate(spec)], io={'capture': rng.choice([True, False, None])})
+            try:
+                r, escaped = task.execute(Stream(0)), None
+            except BaseException as e:   # noqa
+                r, escaped = None, type(e).__name__
+            obs = [aout_code(r, escaped), len(called)]
+        except Exception as e:   # noqa
+            obs = [98, 0]
+        ccases.append(dict(model='enc_cls_task [%s]' % '; '.join('Build_cact %s %s (%d)%%Z' % (FORM_MODEL[f], tg, rc) for f, tg, rc, _, _ in spec),
+                           expected=obs, desc=('action-class-task-execute', [dict(form=f, callable_ends_by=lb) for f, _, _, _, lb in spec])))
+        out.evaluations += 1
+        out.count('class-task-execute:outcome-%d' % obs[0])
+        if obs[0] == 3:
+            out.nontrivial.add(('cls-task', tuple((f, lb) for f, _, _, _, lb in spec)))
+    items = [('', 'cmpZ (%s) %s' % (c['model'], common.zlist(c['expected']))) for c in ccases]
+    outs = common.coq_eval(ctx, 'From DoitV Require Import Base Action ActionClass.\nOpen Scope Z_scope.\n', items,
+                           shard=max(4, -(-len(items) // common.NCPU)), tag='c06cls')
+    for c, o in zip(ccases, outs):
+        if o != 'None':
+            out.mismatches.append(dict(case=c['desc'], impl=c['expected'], model=common.parse_zlist(o)))
+    out.extra['action_class_execute_cases_compared_with_ActionClass_v'] = len(ccases)
+    return len(ccases)
+
+
 PRE = runlib.PRE + 'From DoitV Require Import Backends Crash.\n'
 
 
@@ -2116,15 +2616,27 @@ def run(ctx):
                 'other aborts (1d): a seed-independent block -- 17 abort points of a fixed 6-task set (other BaseException subclasses in an action, a raising '
                 'uptodate callable, a raising value-saver / check_timestamp_unchanged(<missing>), three run-time cycles) x backend x {serial, thread, process} '
                 '(quick, parallel runners: eight of the points on every backend, the others on one each) -- plus random (task, kind) points in generated task sets; '
-                'non-trivial = distinct (configuration, observed trace) of a run whose interrupt / abort point was reached / distinct kill point at which the process really died')
+                'action classes (1e): a seed-independent block -- the interrupt inside each of the 8 actions of a fixed 3-task set in which every form of action '
+                '(callable, (callable, args, kwargs) tuple, PythonAction object, doit.tools.PythonInteractiveAction, CmdAction(callable)) occurs x {KeyboardInterrupt, '
+                'SystemExit} x {serial, thread, process} x backend (quick: the backend rotates; parallel runners: the two exceptions alternate) -- plus random points in '
+                'generated task sets whose actions get a form from the PRNG; and `execute` of the real classes on every (form, way the callable ends: 10 tags / 28 '
+                'values and exception classes, capture mode) + Task.execute on random lists of 1-3 actions of mixed forms against Model/ActionClass.v; '
+                'working directory (1f): a seed-independent block -- DB file named relative to the start directory, every other file by absolute name, actions that '
+                'os.chdir() into sub-directories; the run cut at 4 points (chdir by an earlier action of the interrupted task / by earlier tasks / by the interrupted '
+                'action itself) x {KeyboardInterrupt, SystemExit, no exception: the run simply ends} x backend x {serial, thread, process} x {prior, fresh} (quick: sampled '
+                'by rotation, KeyboardInterrupt x serial x every backend x every point always) -- plus random chdir placements in the generated sets; '
+                'non-trivial = distinct (configuration, observed trace) of a run whose interrupt / abort point was reached / distinct kill point at which the process really died / '
+                'distinct (form, exception class, capture) of an `execute` a BaseException leaves')
     cases = []
     part_interrupt(ctx, out, cases)
     plan_info = part_kill(ctx, out, cases)
     part_dumb_model(ctx, out, cases)
     part_json_assumptions(ctx, out, plan_info)
-    part_abort(ctx, out, cases)     # last: its PRNG draws come after those of every other part
+    part_abort(ctx, out, cases)     # its PRNG draws come after those of every part above
+    part_action_class(ctx, out, cases)   # (1e) / (1f): PRNG draws after those of every part above
+    n_cls = part_class_model(ctx, out)   # last
     bad = compare(ctx, cases)
-    out.traces_validated = len(cases)
+    out.traces_validated = len(cases) + n_cls
     for i, m in bad:
         out.mismatches.append(dict(case=cases[i]['desc'], impl=cases[i]['expected'][:400], model=m[:400]))
     out.assumptions = [
@@ -2138,6 +2650,13 @@ def run(ctx):
         'IMPLEMENTATION side only: Model/Runner.v and Model/Crash.v do not have these attributes -- the model has one trace for an interrupting action '
         '(execute, then close, exit by the escaping exception), so the correspondence check and oracle 0 (the interrupt ends the run) state what must '
         'happen in every execution mode; that doit takes the same decisions in every mode is observed (systematic block + PRNG), not proved',
+        '(1e) the class that executes the callable IS modelled (Model/ActionClass.v: PythonAction, doit.tools.PythonInteractiveAction, CmdAction(callable); '
+        'C06_interrupt_never_swallowed / C06_interrupt_any_action_class compose it with the serial runner) and compared with the `execute` of the real classes; '
+        'NOT judged: doit.tools.LongRunning, documented to swallow a KeyboardInterrupt that arrives while doit waits for the command and to be always successful '
+        '(the exception is not raised by the user action), and doit.tools.Interactive (a command, no callable)',
+        '(1f) the working directory is not part of any model: Model/Backends.v / Crash.v have ONE file per DB, so the correspondence (trace + DB read in the directory '
+        'doit was started in) and the oracles state what must happen wherever the process is when the DB is flushed; file_dep / targets are given to doit by '
+        'absolute name in these cases (a relative file_dep after os.chdir is the user\'s own affair, not the DB\'s)',
         'PARTIAL: the on-disk behaviour of dbm.dumb, sqlite3 and the kernel is swept (kill at every traced system call), not proved',
         'J-prefix / J-extra (Section variables of Proofs/CrashP.v): json.JSONDecoder rejects every proper prefix of an encoded object and every '
         'encoded object followed by the tail of a longer one -- exercised on every DB document and record of this run',
@@ -2160,8 +2679,32 @@ def replay(ctx, payload):
     case = payload.get('case', {})
     print('property C06, recorded: %s' % payload.get('what'))
     kind = case.get('replay')
-    sc = dict(tasks=case.get('tasks'), selected=case.get('selected'))
+    sc = dict(tasks=case.get('tasks'), selected=case.get('selected'), reldb=bool(case.get('reldb')), abspaths=bool(case.get('abspaths')))
     d = os.path.join(ctx.subdir('replay'), 'w')
+    if kind == 'action-class':
+        job = dict(dir=d, sc=sc, backend=case['backend'], variant=case['variant'], target=case['target'], ai=case['ai'], kind=case['kind'],
+                   args=case['args'], modify=case.get('modify', []), failing=None, runner=case.get('runner', 'serial'),
+                   history=case.get('history'), revert=[], replay='action-class')
+        res = interrupt_case(job)
+        for what in res.get('problems', []):
+            print('harness problem: %s' % (what,))
+        if 'v1' not in res:
+            return 1
+        names = [t['name'] for t in sc['tasks']]
+        v1, v2 = res['v1'], res['v2']
+        viol, raised = judge_interrupt(job, res)
+        tt = sc['tasks'][names.index(job['target'])]
+        print('the run that is cut: %s raised inside action %d of %s, which is %s' % (EXC_WHAT[job['kind']], job['ai'], job['target'],
+                                                                                     FORM_WHAT[form_of(tt['actions'][min(job['ai'], len(tt['actions']) - 1)])]))
+        print('  that action was started: %s; exit status %s (4 = the exception escaped DoitMain.run); trace=%s' % (raised, res['rc1'], v1['trace']))
+        print('  actions started: %s; working directory changes: %s' % (v1['started'], v1['chdirs']))
+        print('  reported successful before: %s; Dependency.close ran %d time(s)' % ([names[i] for i in ev_tasks(v1, 6)], v1['events'].count([10])))
+        print('DB (in the directory doit was started in) records %s, expected %s; DB files elsewhere: %s' % (res['recorded'], res['expected_recorded'], res.get('stray1')))
+        print('next run: rc=%s skipped=%s executed=%s, expected skipped=%s' % (res['rc2'], sorted(names[i] for i in ev_tasks(v2, 3)),
+                                                                              sorted(names[i] for i in ev_tasks(v2, 5)), res['expect_skip2']))
+        for sfx, what in viol:
+            print('VIOLATED (%s): %s' % (sfx, what))
+        return 1 if viol or res.get('problems') else 0
     if kind == 'interrupt':
         job = dict(dir=d, sc=sc, backend=case['backend'], variant=case['variant'], target=case['target'], ai=case['ai'], kind=case['kind'],
                    args=case['args'], modify=case.get('modify', []), failing=case.get('failing'), runner=case.get('runner', 'serial'),
